@@ -333,6 +333,30 @@ def run(ctx):
         step = 1 if (ctx.tier == 'thorough' or len(A) < 400) else 3
         for cut in range(0, len(A), step):
             items.append(('generated-%d@cut%d' % (bi, cut), A[:cut], len(ms)))
+    # members of Mac archives inside an accepted MacBinary envelope (the reader strips the envelope and then has to drain the rest
+    # of the inner stream): every cut offset, and inner streams that deliver the data fork but stop short of the declared length
+    from ..lhamodel import fstree
+    for mi, (df, rf) in enumerate(((300, 130), (10, 0), (0, 40), (200, 200))):
+        name = b'mac%d.txt' % mi
+        env = fstree.macbinary_wrap(name, bytes(rnd.randrange(256) for _ in range(df)), bytes(rnd.randrange(256) for _ in range(rf)), 1000000000)
+        for meth in ('-lh0-', '-lh5-'):
+            if meth == '-lh0-':
+                packed = env
+            else:
+                from ..lhamodel import lhnew
+                packed, _ = lhnew.serialise('-lh5-', [('L', b_) for b_ in env], rnd)
+            mm = H.simple_member(name, env, level=1 + mi % 2, method=meth.encode(), os_type=ord('m'), mtime=1000000000, packed=packed)
+            tail = H.build(H.simple_member(b'after', b'xyz', level=2))
+            A = H.build(mm) + tail + b'\0'
+            items.append(('macbinary-%d-%s' % (mi, meth), A, 2))
+            step = 1 if (ctx.tier == 'thorough' or len(A) < 500) else 3
+            for cut in range(0, len(A), step):
+                items.append(('macbinary-%d-%s@cut%d' % (mi, meth, cut), A[:cut], 2))
+            # declared longer than what the stored stream holds (an unpadded envelope), packed size honest
+            for short in (1, 64, 127, 128, len(env) - 128 - df):
+                if 0 < short < len(env) - 128 and meth == '-lh0-':
+                    m2 = H.simple_member(name, env, level=1 + mi % 2, method=b'-lh0-', os_type=ord('m'), mtime=1000000000, packed=env[:len(env) - short])
+                    items.append(('macbinary-%d-unpadded-%d' % (mi, short), H.build(m2) + tail + b'\0', 2))
     for tag, A in extreme_archives(rnd):
         items.append((tag, A, 1))
     # random and mutated
